@@ -47,6 +47,10 @@ def run(ck: Check) -> None:
         if rng.random() < 0.3:   # pre-populated envelope: foreign entries must survive
             env0["signatures"][gen.key(11).hex] = gen.raw_entry(gen.key(11), b"other")
             env0["signatures"]["junk"] = "x"
+        if i % 9 == 4:   # a crowded envelope: the new signers' entries land behind dozens of strangers' entries and must count all the same
+            import hashlib as _h
+            for j in range(40):
+                env0["signatures"][_h.sha256(b"stranger%d" % j).hexdigest()] = {"signature": "00" * 64}
         data = gen.oracle_bytes(payload)
         order1 = list(ks)
         order2 = list(ks)
